@@ -19,13 +19,14 @@ MANIFEST = {
              'C12_sifo_refines / C12_fsv_order_refines / C12_frame_sort_values_refines / C12_series_sort_values_refines (the implementation model of sort_index_for_order, Frame.sort_values, '
              'Series.sort_values -- with loop directions, lexsort threshold and order[::-1] REGENERATED from the source text into Gen/Gen_c12.v on every run -- equals the specification for every input in the stated domain), '
              'C12_default_kind_stable (every sort method\'s effective default kind, regenerated, is in the stable set). '
+             'C12_frame_sort_values_rejects_wrong_length / C12_sort_index_family_rejects_wrong_length (with the REGENERATED length checks, a key result of the wrong extent is always rejected with RuntimeError, whatever its class or content). '
              'C12_go_key_vectors_current (grow-only hierarchical index, any history of append/extend/reads: with the REGENERATED refresh condition of IndexHierarchy.values_at_depth and the flag updates of IndexHierarchyGO.append/extend, the lexsort keys are those of the current labels). '
              'Correspondence: API-level runs of Series/Frame/Index/IndexHierarchy sort_index, sort_columns, sort_values, sort over all block layouts, both axes, both directions, '
              '1-3 keys / depths, key functions returning arrays and containers; kernel-level runs of sort_index_for_order; oracle sweeps of np.argsort(mergesort) and np.lexsort; malformed key-function results.'),
     'note': ('trusted: Coq kernel, harness, the AST extractor generate() of this module (fail closed), the oracle contract "np.argsort(kind=mergesort/stable) and each np.lexsort pass return the stable sorted arrangement under '
              'val_leb" (validated by the oracle strata each run, exhaustive for small lists). Modelled, not proved about the code: that index[order] / blocks.iloc[order] take whole rows (C03/C04 territory; observed through the full result frame), '
              'label->position resolution of the sort_values label argument, dtype consolidation of a row (axis 0) which is assumed order-preserving (exact for the generated values). '
-             'Known findings (model follows the code, spec does not): 2-D one-column key arrays in sort_index_for_order; non-tree-ordered results on hierarchical axes. Repaired (regression case kept): Series.sort_values did not validate the key result length (fix 2c1ccba).'),
+             'Known findings (model follows the code, spec does not): 2-D one-column key arrays in sort_index_for_order; non-tree-ordered results on hierarchical axes. Frame.sort_values(axis=0) without key on a Frame with no columns leaks StopIteration (modelled; guard fsv_zero_ok). NOT covered: kind arguments other than the stable ones (quicksort/heapsort are outside the property); complex and object-with-None keys (NumPy/Python raise or have no total order); mixed str/number key rows; Bus.sort_* is compared through the Series-of-Frames model (frames identified by a cell value), Batch.sort_* per yielded Frame, both only with in-scope arguments; label->position resolution of every selector kind is done by the harness (the model receives positions); result class / index class / level classes / names are checked on the Python side only; IndexHierarchyGO.extend into an existing outer group (C09); the block walk of index[order] / blocks.iloc[order] (C03/C04). Repaired (regression case kept): Series.sort_values did not validate the key result length (fix 2c1ccba).'),
     'technique': 'uniqueness of the stable sorted arrangement + LSD theorem + refinement of a source-parameterised implementation model; differential correspondence by vm_compute',
 }
 PROPERTY_FILES = ['Properties/C12.v']
@@ -36,6 +37,7 @@ IMPORTS = 'Require Import SF.Prelude SF.Dtype SF.Value SF.PyDyn SF.SortCore SF.S
 RULE = ('oracle strata: every key list up to a length bound over 3 values (+NaN) per dtype through np.argsort(kind=mergesort) / np.lexsort, plus random long lists with few distinct keys; '
         'kernel stratum: sort_index_for_order called directly on flat and hierarchical indices with/without key functions; api strata: public sort_* calls on generated Series/Frames '
         '(duplicate, negative, NaN, string, bool keys; 1-3 key columns / index depths; both axes; both directions; every block layout of small frames); malformed stream: key results of wrong length. '
+        'api:routes.*: every label-argument kind of Frame.sort_values (loc slice, Boolean array, ndarray, Index, ILoc int/list/slice, HLoc, explicit stable kinds), extra dtype kinds (uint8/uint64/int8/float32/float16/bytes/datetime64 and timedelta64 units with NaT) on Series/Frame/HE/GO classes and both axes, datetime index classes of every unit (+GO), date-typed levels of hierarchical indices (rows and columns), default auto indices with a loc read-back, Bus.sort_index/sort_values (in memory and store-backed max_persist=1), Batch.sort_*, zero-sized and 1-wide shapes in every layout. '
         'api:go-sort: FrameGO / IndexGO / IndexHierarchyGO with histories [materialise] -> grow (setitem/append/extend) -> sort as the FIRST read, specified on the current content built independently; then the input and the result are grown in turn and the other re-snapshotted (no shared mutable index); kernel:ih-cache: values_at_depth as first read after growth against the cache model. '
         'A case is non-trivial when the specified order is neither the identity nor its plain reverse, or when it exercises ties (stability); distinct = distinct (call, input, key function, direction).')
 ASSUMPTIONS = [
@@ -242,6 +244,15 @@ def generate(repo):
     kinds.append(('Frame.sort_values', _kind_expr(_kw(fsv_argsort[0], 'kind'), default_expr(fsv))))
     kinds.append(('Series.sort_values', _kind_expr(_kw(ssv_argsort[0], 'kind'), default_expr(ssv))))
 
+    # validation of the key function's result: which extent is compared with which, and that RuntimeError is raised
+    def guard(fn, test_text):
+        hits = [n for n in ast.walk(fn) if isinstance(n, ast.If) and ast.unparse(n.test) == test_text and len(n.body) == 1 and not n.orelse
+                and isinstance(n.body[0], ast.Raise) and isinstance(n.body[0].exc, ast.Call) and ast.unparse(n.body[0].exc.func) == 'RuntimeError']
+        return 'true' if len(hits) == 1 else 'false'
+    sifo_len = guard(sifo, 'len(cfs) != len(index)')
+    fsv0_len = guard(fsv, 'cfs.ndim == 1 and len(cfs) != self.shape[1] or (cfs.ndim == 2 and cfs.shape[1] != self.shape[1])')
+    fsv1_len = guard(fsv, 'cfs.ndim == 1 and len(cfs) != self.shape[0] or (cfs.ndim == 2 and cfs.shape[0] != self.shape[0])')
+
     # grow-only hierarchical index: refresh condition of values_at_depth, flag updates of append/extend
     vad = _func(ih, 'IndexHierarchy.values_at_depth')
     first = next((n for n in vad.body if not (isinstance(n, ast.Expr) and isinstance(n.value, ast.Constant))), None)
@@ -277,7 +288,7 @@ def generate(repo):
         '(* loop directions of the values_for_lex comprehensions, the `cfs_depth > k` test and the',
         '   `if not ascending: order = order[::-1]` statements, presence of the key-length check in Series.sort_values *)',
         'Definition code_params : sort_params :=',
-        f'  mk_sort_params {sifo_arr} {sifo_idx} {lit.z(thr)} {sifo_desc} {fsv0_arr} {fsv0_frame} {fsv1_arr} {fsv1_frame} {fsv_desc} {ssv_desc} {ssv_len_check}.',
+        f'  mk_sort_params {sifo_arr} {sifo_idx} {lit.z(thr)} {sifo_desc} {fsv0_arr} {fsv0_frame} {fsv1_arr} {fsv1_frame} {fsv_desc} {ssv_desc} {ssv_len_check} {sifo_len} {fsv0_len} {fsv1_len}.',
         '',
         '(* IndexHierarchy.values_at_depth refresh condition; IndexHierarchyGO.append / extend set _recache *)',
         f'Definition code_cache_params : cache_params := mk_cache_params {vad_refresh} {app_flag} {ext_flag}.',
@@ -1267,7 +1278,12 @@ def go_frame_case(ctx, rng):
     cols = gen_cols(rng, kinds, nrows)
     name = rng.choice((None, 'G'))
     lay0 = rng.choice(list(zoo.layouts_for([c.dtype for c in cols[:n0]])))
-    g = zoo.frame_from_columns(cols[:n0], lay0, index=mk_index(ilabels, idepth), columns=mk_index(clabels_all[:n0], cdepth), name=name, cls=sf.FrameGO)
+    if cdepth > 1 and rng.random() < 0.15:
+        # start from a ZERO-length hierarchical columns index (IndexLevelGO.append builds the tree from the first key)
+        n0 = 0
+        g = sf.FrameGO(index=mk_index(ilabels, idepth), columns=sf.IndexHierarchyGO.from_names(tuple('pqr'[:cdepth])), name=name)
+    else:
+        g = zoo.frame_from_columns(cols[:n0], lay0, index=mk_index(ilabels, idepth), columns=mk_index(clabels_all[:n0], cdepth), name=name, cls=sf.FrameGO)
     how = rng.choice(('none', 'values', 'depth', 'display', 'len'))
     _materialise(g.columns, how)
     grow = 'setitem'
@@ -1276,7 +1292,23 @@ def go_frame_case(ctx, rng):
         g.extend(zoo.frame_from_columns(cols[n0:], tuple((1, False) for _ in cols[n0:]), index=mk_index(ilabels, idepth), columns=mk_index(clabels_all[n0:], 1)))
     else:
         for j in range(n0, ncols):
-            g[clabels_all[j]] = cols[j]
+            form = rng.choice(('array', 'array', 'series', 'tuple', 'scalar'))
+            if form == 'series':
+                # a Series in another row order: aligned on the index by __setitem__
+                perm = list(range(nrows))
+                rng.shuffle(perm)
+                if idepth > 1:                 # a hierarchical index must itself stay tree-ordered
+                    other = tree_shuffle(rng, list(ilabels))
+                    perm = [ilabels.index(l) for l in other]
+                g[clabels_all[j]] = sf.Series(cols[j][perm], index=mk_index([ilabels[i] for i in perm], idepth))
+            elif form == 'tuple' and cols[j].dtype.kind in 'ifb' and nrows:
+                g[clabels_all[j]] = tuple(cols[j].tolist())
+            elif form == 'scalar' and op != 'sort_values0':
+                cols[j] = np.full(nrows, 5, dtype=np.int64)
+                g[clabels_all[j]] = 5
+            else:
+                g[clabels_all[j]] = cols[j]
+            grow = 'setitem'
     # the same content built independently as a static Frame: the specification's input
     lay_all = tuple((1, False) for _ in cols)
     cur = zoo.frame_from_columns(cols, lay_all, index=mk_index(ilabels, idepth), columns=mk_index(clabels_all, cdepth), name=name)
@@ -1356,11 +1388,15 @@ def go_index_case(ctx, rng):
         return None
     n0 = max(1, min(n0, len(labels_all) - 1))
     cls = sf.IndexGO if depth == 1 else sf.IndexHierarchyGO
-    ix = cls(labels_all[:n0]) if depth == 1 else cls.from_labels(labels_all[:n0])
+    if depth > 1 and rng.random() < 0.2:
+        n0 = 0                                  # zero-length start: the tree is built from the first appended key
+        ix = cls.from_names(tuple('pqr'[:depth]))
+    else:
+        ix = cls(labels_all[:n0]) if depth == 1 else cls.from_labels(labels_all[:n0])
     how = rng.choice(('none', 'values', 'depth', 'display'))
     _materialise(ix, how)
     grow = rng.choice(('append', 'extend'))
-    if depth > 1 and {l[0] for l in labels_all[n0:]} & {l[0] for l in labels_all[:n0]}:
+    if depth > 1 and (n0 == 0 or {l[0] for l in labels_all[n0:]} & {l[0] for l in labels_all[:n0]}):
         grow = 'append'     # IndexHierarchyGO.extend takes whole new outer groups only (growing an existing group is append's job)
     if grow == 'append' or len(labels_all) - n0 < 1:
         for l in labels_all[n0:]:
@@ -1427,6 +1463,444 @@ def go_cases(ctx):
             yield c
 
 
+# --------------------------------------------------------------------------- routes (coverage-guided extension round)
+XKINDS = ('uint8', 'uint64', 'int8', 'f32', 'f16', 'bytes', 'dt:D', 'dt:s', 'dt:M', 'dt:ns', 'td:s', 'td:D')
+_DT_UNIT_CLS = {'Y': 'IndexYear', 'M': 'IndexYearMonth', 'D': 'IndexDate', 'h': 'IndexHour', 'm': 'IndexMinute', 's': 'IndexSecond',
+                'ms': 'IndexMillisecond', 'us': 'IndexMicrosecond', 'ns': 'IndexNanosecond'}
+
+
+def gen_xcol(rng, kind, n, distinct=3):
+    # columns of the dtype kinds the first generators never produced: unsigned / narrow ints, narrow floats, bytes, datetime64 / timedelta64 (with NaT)
+    def pick(pool):
+        pool = rng.sample(pool, min(distinct, len(pool)))
+        return [rng.choice(pool) for _ in range(n)]
+    if kind == 'uint8':
+        return np.array(pick([0, 3, 200, 255, 17]), dtype=np.uint8)
+    if kind == 'uint64':
+        return np.array(pick([0, 5, 2 ** 40, 7, 2 ** 63]), dtype=np.uint64)
+    if kind == 'int8':
+        return np.array(pick([-128, -1, 0, 5, 127]), dtype=np.int8)
+    if kind == 'f32':
+        return np.array(pick([-1.5, 0.0, 0.5, 2.0, float('nan'), float('inf')]), dtype=np.float32)
+    if kind == 'f16':
+        return np.array(pick([-1.5, 0.0, 0.5, 2.0, float('nan')]), dtype=np.float16)
+    if kind == 'bytes':
+        return np.array(pick([b'a', b'B', b'ab', b'b', b'ba']) or [], dtype='S2')
+    if kind.startswith('dt:'):
+        u = kind[3:]
+        vals = pick([-40, -1, 0, 3, 500, None])
+        return np.array([np.datetime64('NaT') if v is None else np.datetime64(v, u) for v in vals] or [], dtype=f'datetime64[{u}]')
+    if kind.startswith('td:'):
+        u = kind[3:]
+        vals = pick([-40, -1, 0, 3, 500, None])
+        return np.array([np.timedelta64('NaT') if v is None else np.timedelta64(v, u) for v in vals] or [], dtype=f'timedelta64[{u}]')
+    return gen_col(rng, kind, n, distinct)
+
+
+def _class_fail(r, recv):
+    if isinstance(r, Exception):
+        return None
+    if r.__class__ is not recv.__class__:
+        return f'class {recv.__class__.__name__} became {r.__class__.__name__}'
+    return None
+
+
+def route_dtype_cases(ctx, rng, count):
+    # Series.sort_values / Frame.sort_values over the extra dtype kinds, every layout choice, both axes
+    import static_frame as sf
+    for _ in range(count):
+        if rng.random() < 0.5:
+            kind = rng.choice(XKINDS)
+            n = rng.randint(0, 7)
+            vals = gen_xcol(rng, kind, n, distinct=rng.randint(2, 4))
+            cls = rng.choice((sf.Series, sf.Series, sf.SeriesHE))
+            labels = flat_labels(rng, n, rng.choice(('int', 'str')))
+            sr = cls(vals, index=labels, name='x')
+            asc = rng.random() < 0.5
+            kfspec = rng.choice((None, None, ('ident', kf_ident, 'arr1'), ('const', kf_const, 'series')))
+            items = [(v,) for v in pyvals(vals)]
+            kfn = None
+            if kfspec is not None and items:
+                kfn = KeyFn(kfspec[1], kfspec[2])
+                keyvecs = key_vectors(items, kfspec[1])
+                keys_lit = vecs_lit(keyvecs)
+            else:
+                kfspec = None
+                keys_lit = f'[os_values {lit.oseries(sr)}]'
+            obs, r = run_obs(lambda: sr.sort_values(ascending=asc, key=kfn), lit.oseries)
+            ctx.count(f'routes:series.sort_values:{kind}', f'routes:cls:{cls.__name__}')
+            yield Case('api:routes.dtype', {'call': f'{cls.__name__}.sort_values(ascending={asc}, key={kfspec and kfspec[0]})', 'series': lit.oseries(sr), 'observed': obs},
+                       m=f'oseries_res_eqb (M_series_sort_values {P} {sseries_lit(sr, 1)} {opt(keyres_of(kfn, items))} {lit.b(asc)}) {obs}',
+                       s=f'oseries_res_eqb (Ok (S_series_sort {lit.oseries(sr)} {keys_lit} {lit.b(asc)})) {obs}',
+                       py_fail=_class_fail(r, sr), tags={'op': 'Series.sort_values', 'kind': kind})
+        else:
+            axis = rng.choice((1, 1, 0))
+            ncols = rng.randint(1, 4)
+            nrows = rng.randint(0, 5)
+            if axis == 0:
+                fam = rng.choice((('uint8', 'int8', 'uint8', 'int'), ('dt:D', 'dt:D', 'dt:D'), ('f32', 'f16', 'float', 'int8'), ('bytes', 'bytes'), ('td:s', 'td:s'), ('uint64', 'uint64')))
+                kinds = [rng.choice(fam) for _ in range(ncols)]
+                nrows = max(nrows, 1)
+            else:
+                kinds = [rng.choice(XKINDS + ('int', 'str')) for _ in range(ncols)]
+            cols = [gen_xcol(rng, k, nrows, distinct=rng.randint(2, 3)) for k in kinds]
+            layout = rng.choice(list(zoo.layouts_for([c.dtype for c in cols])))
+            il = flat_labels(rng, nrows, 'str')
+            cl = flat_labels(rng, ncols, 'int')
+            cls = rng.choice((sf.Frame, sf.FrameHE, sf.FrameGO))
+            f = zoo.frame_from_columns(cols, layout, index=mk_index(il, 1), columns=mk_index(cl, 1), name='X', cls=cls)
+            other = ncols if axis == 1 else nrows
+            k = rng.randint(1, min(3, other))
+            sel = rng.sample(range(other), k)
+            single = k == 1 and rng.random() < 0.5
+            asc = rng.random() < 0.5
+            holder = {}
+            c = frame_sort_values_case(ctx, rng, f, cols, il, cl, 1, 1, layout, axis, sel, single, asc, None, 'api:routes.dtype', holder=holder)
+            c.tags['kinds'] = '+'.join(kinds)
+            c.py_fail = _class_fail(holder.get('out'), f)
+            ctx.count(f'routes:cls:{cls.__name__}', *[f'routes:frame.sort_values:{k_}' for k_ in set(kinds)])
+            yield c
+
+
+def _resolve_label(rng, labels, how):
+    # (label object handed to sort_values, positions it denotes in order, single?) for a flat axis
+    n = len(labels)
+    if how == 'slice':
+        a = rng.randrange(n)
+        b = rng.randrange(a, n)
+        return slice(labels[a], labels[b]), list(range(a, b + 1)), False
+    if how == 'bool':
+        mask = [rng.random() < 0.6 for _ in range(n)]
+        if not any(mask):
+            mask[rng.randrange(n)] = True
+        return np.array(mask), [i for i, m_ in enumerate(mask) if m_], False
+    sel = rng.sample(range(n), rng.randint(1, min(3, n)))
+    if how == 'nparray':
+        return np.array([labels[i] for i in sel]), sel, False
+    if how == 'index':
+        import static_frame as sf
+        return sf.Index([labels[i] for i in sel]), sel, False
+    if how == 'iloc-int':
+        import static_frame as sf
+        return sf.ILoc[sel[0]], sel[:1], True
+    if how == 'iloc-list':
+        import static_frame as sf
+        return sf.ILoc[sel], sel, False
+    if how == 'iloc-slice':
+        import static_frame as sf
+        a = rng.randrange(n)
+        b = rng.randrange(a, n)
+        return sf.ILoc[a:b + 1], list(range(a, b + 1)), False
+    raise ValueError(how)
+
+
+def route_label_cases(ctx, rng, count):
+    # the label argument of Frame.sort_values in every selector kind; explicit stable kinds
+    import static_frame as sf
+    hows = ('slice', 'bool', 'nparray', 'index', 'iloc-int', 'iloc-list', 'iloc-slice', 'hloc', 'kind')
+    for i in range(count):
+        how = hows[i % len(hows)]
+        axis = rng.choice((1, 1, 0))
+        asc = rng.random() < 0.5
+        cdepth = 2 if (how == 'hloc' and axis == 1) else 1
+        idepth = 2 if (how == 'hloc' and axis == 0) else 1
+        f, cols, il, cl, kinds, layout = make_frame(rng, rng.randint(2, 5), rng.randint(2, 4), idepth, cdepth, comparable=(axis == 0))
+        nrows, ncols = f.shape
+        other_labels = cl if axis == 1 else il
+        kind = None
+        if how == 'hloc':
+            outer = rng.choice([l[0] for l in other_labels])
+            label = sf.HLoc[outer]
+            sel = [j for j, l in enumerate(other_labels) if l[0] == outer]
+            single = False
+        elif how == 'kind':
+            sel = rng.sample(range(len(other_labels)), rng.randint(1, min(2, len(other_labels))))
+            single = len(sel) == 1
+            label = other_labels[sel[0]] if single else [other_labels[j] for j in sel]
+            kind = rng.choice(('stable', 'mergesort'))
+        else:
+            label, sel, single = _resolve_label(rng, other_labels, how)
+
+        def recv(label_, asc_, axis_, kfn_, label=label, kind=kind):
+            if kind is None:
+                return f.sort_values(label, ascending=asc_, axis=axis_, key=kfn_)
+            return f.sort_values(label, ascending=asc_, axis=axis_, key=kfn_, kind=kind)
+        holder = {}
+        c = frame_sort_values_case(ctx, rng, f, cols, il, cl, idepth, cdepth, layout, axis, sel, single, asc, None, 'api:routes.label', recv=recv, holder=holder)
+        c.desc['call'] = f'frame.sort_values(<{how}: {label!r}>, ascending={asc}, axis={axis}{", kind=" + repr(kind) if kind else ""})'
+        c.desc['denotes_positions'] = sel
+        c.tags['label_kind'] = how
+        import json as _json
+        c.key = _json.dumps(c.desc, sort_keys=True, default=str)
+        ctx.count(f'routes:label:{how}')
+        yield c
+
+
+def _dt_labels(rng, n, unit):
+    vals = rng.sample([-400, -40, -1, 0, 3, 17, 500, 9000], n)
+    return [np.datetime64(v, unit) for v in vals]
+
+
+def route_index_cases(ctx, rng, count):
+    # datetime-typed indices (every unit class), date-typed levels of hierarchical indices, default (auto) indices
+    import static_frame as sf
+    for i in range(count):
+        which = ('dtindex', 'dtindex-series', 'ih-dated', 'ih-dated-frame', 'auto-series', 'auto-frame')[i % 6]
+        asc = rng.random() < 0.5
+        if which in ('dtindex', 'dtindex-series'):
+            unit = rng.choice(list(_DT_UNIT_CLS))
+            n = rng.randint(0, 6)
+            labels = _dt_labels(rng, n, unit)
+            cls = getattr(sf, _DT_UNIT_CLS[unit] + rng.choice(('', 'GO')))
+            idx = cls(np.array(labels, dtype=f'datetime64[{unit}]'), name='t')
+            items = label_items(labels, 1)
+            kfspec = rng.choice((None, ('ident', kf_ident, 'arr1'), ('const', kf_const, 'arr1')))
+            kfn = KeyFn(kfspec[1], kfspec[2]) if (kfspec and items) else None
+            if kfn is None:
+                kfspec = None
+            keyvecs = key_vectors(items, kfspec[1]) if kfspec else [labels]
+            keys_lit = vecs_lit(keyvecs) if kfspec else f'(index_keys 1%nat {lit.vlist(labels)})'
+            if which == 'dtindex':
+                obs, r = run_obs(lambda: idx.sort(ascending=asc, key=kfn), lambda r_: lit.vlist(lit.labels(r_)))
+                pf = _class_fail(r, idx)
+                if pf is None and not isinstance(r, Exception) and r.name != idx.name:
+                    pf = f'name {idx.name!r} became {r.name!r}'
+                ctx.count(f'routes:index.sort:{cls.__name__}')
+                yield Case('api:routes.index', {'call': f'{cls.__name__}.sort(ascending={asc}, key={kfspec and kfspec[0]})', 'labels': [str(l) for l in labels], 'observed': obs},
+                           m=f'labels_res_eqb (M_index_sort {P} 1%nat {lit.vlist(labels)} {opt(keyres_of(kfn, items))} {lit.b(asc)}) {obs}',
+                           s=f'labels_res_eqb (Ok (S_index_sort {lit.vlist(labels)} {keys_lit} {lit.b(asc)})) {obs}', py_fail=pf, tags={'op': 'Index.sort', 'unit': unit})
+            else:
+                sr = sf.Series(gen_col(rng, 'int', n), index=idx, name='v')
+                obs, r = run_obs(lambda: sr.sort_index(ascending=asc, key=kfn), lit.oseries)
+                pf = None
+                if not isinstance(r, Exception) and r.index.__class__ is not sr.index.__class__:
+                    pf = f'index class {sr.index.__class__.__name__} became {r.index.__class__.__name__}'
+                ctx.count(f'routes:series.sort_index:{cls.__name__}')
+                yield Case('api:routes.index', {'call': f'series[{cls.__name__}].sort_index(ascending={asc}, key={kfspec and kfspec[0]})', 'series': lit.oseries(sr), 'observed': obs},
+                           m=f'oseries_res_eqb (M_series_sort_index {P} {sseries_lit(sr, 1)} {opt(keyres_of(kfn, items))} {lit.b(asc)}) {obs}',
+                           s=f'oseries_res_eqb (Ok (S_series_sort {lit.oseries(sr)} {keys_lit} {lit.b(asc)})) {obs}', py_fail=pf, tags={'op': 'Series.sort_index', 'unit': unit})
+        elif which in ('ih-dated', 'ih-dated-frame'):
+            depth = rng.choice((2, 3))
+            unit = rng.choice(('D', 'M', 's', 'Y'))
+            dpos = rng.randrange(depth)                      # which level is date-typed
+            pools = []
+            for d in range(depth):
+                pools.append([np.datetime64(v, unit) for v in (-3, 0, 40)] if d == dpos else (['a', 'b', 'B'] if rng.random() < 0.5 else [-1, 0, 2]))
+            space = list(itertools.product(*pools))
+            labels = tree_shuffle(rng, rng.sample(space, rng.randint(1, 7)))
+            ctors = tuple(getattr(sf, _DT_UNIT_CLS[unit]) if d == dpos else sf.Index for d in range(depth))
+            ih = sf.IndexHierarchy.from_labels(labels, index_constructors=ctors, name='h')
+            n = len(labels)
+            if which == 'ih-dated':
+                obs, r = run_obs(lambda: ih.sort(ascending=asc), lambda r_: lit.vlist(lit.labels(r_)))
+                pf = None
+                if not isinstance(r, Exception):
+                    if [c_.__name__ for c_ in r.index_types.values] != [c_.__name__ for c_ in ih.index_types.values]:
+                        pf = f'level classes changed: {[c_.__name__ for c_ in r.index_types.values]}'
+                    elif r.name != ih.name:
+                        pf = f'name {ih.name!r} became {r.name!r}'
+                ctx.count(f'routes:ih.sort:dated-level{dpos}/{depth}:{unit}')
+                yield Case('api:routes.index', {'call': f'IndexHierarchy(level {dpos} = {ctors[dpos].__name__}).sort(ascending={asc})', 'labels': [str(l) for l in labels], 'observed': obs},
+                           m=f'labels_res_eqb (M_index_sort {P} {depth}%nat {lit.vlist(labels)} None {lit.b(asc)}) {obs}',
+                           s=f'labels_res_eqb (Ok (S_index_sort {lit.vlist(labels)} (index_keys {depth}%nat {lit.vlist(labels)}) {lit.b(asc)})) {obs}',
+                           py_fail=pf, tags={'op': 'IndexHierarchy.sort', 'unit': unit})
+            else:
+                kinds = gen_kinds(rng, rng.randint(1, 3))
+                cols = gen_cols(rng, kinds, n)
+                layout = rng.choice(list(zoo.layouts_for([c.dtype for c in cols])))
+                cl = flat_labels(rng, len(cols), 'str')
+                onrows = rng.random() < 0.6
+                if onrows:
+                    f = zoo.frame_from_columns(cols, layout, index=ih, columns=mk_index(cl, 1), name='D')
+                    obs, r = run_obs(lambda: f.sort_index(ascending=asc), lit.oframe)
+                    mfun, axis, sfl = 'M_frame_sort_index', 1, sframe_lit(f, depth, 1)
+                else:
+                    # the dated hierarchy as COLUMNS of the transposed content
+                    rows = [np.array([c[i] for c in cols], dtype=object) for i in range(n)]
+                    f = sf.Frame.from_fields(rows, columns=ih, index=cl, name='D') if n else None
+                    if f is None:
+                        continue
+                    obs, r = run_obs(lambda: f.sort_columns(ascending=asc), lit.oframe)
+                    mfun, axis, sfl = 'M_frame_sort_columns', 0, sframe_lit(f, 1, depth)
+                ctx.count(f'routes:frame.{"sort_index" if onrows else "sort_columns"}:dated-ih')
+                yield Case('api:routes.index', {'call': f'frame.{"sort_index" if onrows else "sort_columns"}(ascending={asc}) over a date-typed level {dpos} of {depth}', 'frame': lit.oframe(f), 'observed': obs},
+                           m=f'oframe_res_eqb ({mfun} {P} {sfl} None {lit.b(asc)}) {obs}',
+                           s=f'oframe_res_eqb (Ok (S_frame_sort {axis} {lit.oframe(f)} (index_keys {depth}%nat {lit.vlist(labels)}) {lit.b(asc)})) {obs}',
+                           tags={'op': 'Frame.sort_index', 'unit': unit})
+        else:
+            # default integer index (no labels given): after the sort every label must still address its own row
+            n = rng.randint(0, 7)
+            if which == 'auto-series':
+                kind = rng.choice(KINDS)
+                vals = gen_col(rng, kind, n)
+                sr = sf.Series(vals, name='a')
+                op = rng.choice(('sort_values', 'sort_values', 'sort_index'))
+                obs, r = run_obs(lambda: getattr(sr, op)(ascending=asc), lit.oseries)
+                pf = None
+                if not isinstance(r, Exception):
+                    for lab in range(n):
+                        got, want = r.loc[lab], sr.values[lab]
+                        if not (got == want or (got != got and want != want)):
+                            pf = f'result.loc[{lab}] is {got!r}, the input held {want!r} there'
+                            break
+                keys_lit = f'[os_values {lit.oseries(sr)}]' if op == 'sort_values' else f'(index_keys 1%nat {lit.vlist(list(range(n)))})'
+                mfun = 'M_series_sort_values' if op == 'sort_values' else 'M_series_sort_index'
+                ctx.count(f'routes:auto-index:series.{op}')
+                yield Case('api:routes.index', {'call': f'sf.Series(values).{op}(ascending={asc})  # default index', 'series': lit.oseries(sr), 'observed': obs},
+                           m=f'oseries_res_eqb ({mfun} {P} {sseries_lit(sr, 1)} None {lit.b(asc)}) {obs}',
+                           s=f'oseries_res_eqb (Ok (S_series_sort {lit.oseries(sr)} {keys_lit} {lit.b(asc)})) {obs}', py_fail=pf, tags={'op': f'Series.{op}', 'auto_index': True})
+            else:
+                ncols = rng.randint(1, 3)
+                kinds = gen_kinds(rng, ncols)
+                cols = gen_cols(rng, kinds, n)
+                layout = rng.choice(list(zoo.layouts_for([c.dtype for c in cols])))
+                f = zoo.frame_from_columns(cols, layout, name='A')
+                il, cl = list(range(n)), list(range(ncols))
+                axis = rng.choice((1, 1, 0)) if (n and all(k_ != 'str' for k_ in kinds) and not ('bool' in kinds and 'float' in kinds)) else 1
+                other = ncols if axis == 1 else n
+                sel = rng.sample(range(other), rng.randint(1, min(2, other)))
+                holder = {}
+                c = frame_sort_values_case(ctx, rng, f, cols, il, cl, 1, 1, layout, axis, sel, len(sel) == 1, asc, None, 'api:routes.index', holder=holder)
+                r = holder.get('out')
+                if not isinstance(r, Exception) and r is not None and axis == 1:
+                    for lab in range(n):
+                        got, want = r.loc[lab].values.tolist(), f.iloc[lab].values.tolist()
+                        if repr(got) != repr(want):
+                            c.py_fail = f'result.loc[{lab}] is {got!r}, the input held {want!r} there'
+                            break
+                c.tags['auto_index'] = True
+                ctx.count('routes:auto-index:frame.sort_values')
+                yield c
+
+
+def route_bus_batch_cases(ctx, rng, count):
+    # Bus.sort_index / Bus.sort_values (a Series of Frames; in memory and store-backed with max_persist=1) and Batch.sort_*
+    import shutil
+    import tempfile
+    import static_frame as sf
+    for i in range(count):
+        asc = rng.random() < 0.5
+        if i % 2 == 0:
+            n = rng.randint(1, 5)
+            labels = flat_labels(rng, n, 'str')
+            rows = [rng.randint(1, 3) for _ in range(n)]
+            frames = [sf.Frame(np.full((rows[k], 2), k), name=labels[k]) for k in range(n)]
+            bus = sf.Bus.from_frames(frames, name='B')
+            tmp = None
+            stored = rng.random() < 0.4
+            if stored:
+                tmp = tempfile.mkdtemp(prefix='c12bus')
+                fp = os.path.join(tmp, 'b.zip')
+                bus.to_zip_pickle(fp)
+                bus = sf.Bus.from_zip_pickle(fp, max_persist=1)
+            try:
+                in_lit = f'(mk_oseries {lit.vlist(labels)} {lit.vlist(list(range(n)))} DObj {lit.val(bus.name)})'
+                printer = lambda b_: f'(mk_oseries {lit.vlist(lit.labels(b_.index))} {lit.vlist([int(b_[l].values[0, 0]) for l in b_.index.values.tolist()])} DObj {lit.val(b_.name)})'
+                op = rng.choice(('sort_index', 'sort_values'))
+                if op == 'sort_index':
+                    items = label_items(labels, 1)
+                    kfspec = rng.choice((None, ('len', kf_len, 'arr1'), ('last', kf_last, 'arr1')))
+                    kfn = KeyFn(kfspec[1], kfspec[2]) if kfspec else None
+                    keyvecs = key_vectors(items, kfspec[1]) if kfspec else [labels]
+                    obs, r = run_obs(lambda: bus.sort_index(ascending=asc, key=kfn), printer)
+                    mfun = 'M_series_sort_index'
+                else:
+                    items = [(fr,) for fr in frames]
+                    kf = rng.choice((lambda t: (len(t[0]),), lambda t: (len(t[0]) % 2,), lambda t: (0,)))
+                    kfspec = ('frame-rows', kf, rng.choice(('arr1', 'series')))
+                    kfn = KeyFn(kf, kfspec[2])
+                    keyvecs = key_vectors(items, kf)
+                    obs, r = run_obs(lambda: bus.sort_values(ascending=asc, key=kfn), printer)
+                    mfun = 'M_series_sort_values'
+                keyres = keyres_of(kfn, items)
+                pf = None
+                if not isinstance(r, Exception) and not isinstance(r, sf.Bus):
+                    pf = f'result is a {type(r).__name__}'
+                ctx.count(f'routes:bus.{op}', f'routes:bus:stored{int(stored)}')
+                yield Case('api:routes.bus', {'call': f'bus.{op}(ascending={asc}, key={kfspec and kfspec[0]})  # frames identified by their cell value; store-backed max_persist=1: {stored}',
+                                              'labels': labels, 'frame_rows': rows, 'observed': obs},
+                           m=f'oseries_res_eqb ({mfun} {P} (mk_sseries {in_lit} 1%nat) {opt(keyres)} {lit.b(asc)}) {obs}',
+                           s=f'oseries_res_eqb (Ok (S_series_sort {in_lit} {vecs_lit(keyvecs)} {lit.b(asc)})) {obs}', py_fail=pf, tags={'op': f'Bus.{op}', 'stored': stored})
+            finally:
+                if tmp:
+                    shutil.rmtree(tmp, ignore_errors=True)
+        else:
+            op = rng.choice(('sort_values', 'sort_values', 'sort_index', 'sort_columns'))
+            made = []
+            for name in ('f1', 'f2'):
+                f, cols, il, cl, kinds, layout = make_frame(rng, rng.randint(1, 4), 3, 1, 1, kinds=['int', 'float', 'str'])
+                f = f.relabel(columns=('p', 'q', 'r')).rename(name)
+                made.append((name, f, cols, il, layout))
+            cl = ['p', 'q', 'r']
+            if op == 'sort_values':
+                sel = rng.sample(range(3), rng.randint(1, 2))
+                single = len(sel) == 1
+                for name, f, cols, il, layout in made:
+                    def recv(label, asc_, axis_, kfn_, name=name):
+                        b = sf.Batch.from_frames([m_[1] for m_ in made])
+                        return dict(b.sort_values(label, ascending=asc_, axis=axis_).items())[name]
+                    c = frame_sort_values_case(ctx, rng, f, cols, il, cl, 1, 1, layout, 1, sel, single, asc, None, 'api:routes.batch', recv=recv)
+                    c.desc['call'] = 'Batch.from_frames((f1, f2)).' + c.desc['call'] + f' -> item {name}'
+                    import json as _json
+                    c.key = _json.dumps(c.desc, sort_keys=True, default=str)
+                    ctx.count('routes:batch.sort_values')
+                    yield c
+            else:
+                for name, f, cols, il, layout in made:
+                    def run(name=name):
+                        b = sf.Batch.from_frames([m_[1] for m_ in made])
+                        return dict(getattr(b, op)(ascending=asc).items())[name]
+                    obs, r = run_obs(run, lit.oframe)
+                    axis, labels = (1, il) if op == 'sort_index' else (0, cl)
+                    mfun = 'M_frame_sort_index' if op == 'sort_index' else 'M_frame_sort_columns'
+                    ctx.count(f'routes:batch.{op}')
+                    yield Case('api:routes.batch', {'call': f'Batch.from_frames((f1, f2)).{op}(ascending={asc}) -> item {name}', 'frame': lit.oframe(f), 'observed': obs},
+                               m=f'oframe_res_eqb ({mfun} {P} {sframe_lit(f, 1, 1)} None {lit.b(asc)}) {obs}',
+                               s=f'oframe_res_eqb (Ok (S_frame_sort {axis} {lit.oframe(f)} (index_keys 1%nat {lit.vlist(labels)}) {lit.b(asc)})) {obs}',
+                               tags={'op': f'Batch.{op}'})
+
+
+def route_shape_cases(ctx, rng):
+    # zero-sized and 1-wide shapes, every operation
+    import static_frame as sf
+    for nrows, ncols in ((0, 0), (3, 0), (0, 2), (1, 1), (1, 3), (3, 1)):
+        il = ['b', 'a', 'c'][:nrows]
+        cl = ['y', 'x', 'z'][:ncols]
+        cols = [np.array([2, 0, 1][:nrows], dtype=np.int64) for _ in range(ncols)]
+        for li, layout in enumerate(list(zoo.layouts_for([c.dtype for c in cols])) if cols else [()]):
+            for cls in ((sf.Frame, sf.FrameGO) if li == 0 else (sf.Frame,)):
+                f = zoo.frame_from_columns(cols, layout, index=mk_index(il, 1), columns=mk_index(cl, 1), name='Z', cls=cls)
+                for asc in (True, False):
+                    for op, axis, labels in (('sort_index', 1, il), ('sort_columns', 0, cl)):
+                        obs, _ = run_obs(lambda: getattr(f, op)(ascending=asc), lit.oframe)
+                        mfun = 'M_frame_sort_index' if op == 'sort_index' else 'M_frame_sort_columns'
+                        ctx.count(f'routes:shape:{nrows}x{ncols}')
+                        yield Case('api:routes.shape', {'call': f'{cls.__name__}{(nrows, ncols)}.{op}(ascending={asc})', 'layout': zoo.layout_str(layout), 'observed': obs},
+                                   m=f'oframe_res_eqb ({mfun} {P} {sframe_lit(f, 1, 1)} None {lit.b(asc)}) {obs}',
+                                   s=f'oframe_res_eqb (Ok (S_frame_sort {axis} {lit.oframe(f)} (index_keys 1%nat {lit.vlist(labels)}) {lit.b(asc)})) {obs}',
+                                   tags={'op': f'Frame.{op}', 'shape': f'{nrows}x{ncols}'})
+                    for axis, other in ((1, ncols), (0, nrows)):
+                        if other == 0:
+                            continue
+                        c = frame_sort_values_case(ctx, rng, f, cols, il, cl, 1, 1, layout, axis, [0], True, asc, None, 'api:routes.shape')
+                        c.tags['shape'] = f'{nrows}x{ncols}'
+                        if axis == 0 and ncols == 0:
+                            c.tags['finding'] = 'C12-zero-columns-axis0'
+                        c.desc['call'] = f'{cls.__name__}{(nrows, ncols)}: ' + c.desc['call']
+                        import json as _json
+                        c.key = _json.dumps(c.desc, sort_keys=True, default=str)
+                        yield c
+
+
+def routes_cases(ctx):
+    rng = ctx.rng
+    yield from route_shape_cases(ctx, rng)
+    yield from route_dtype_cases(ctx, rng, ctx.n(130, 1500))
+    yield from route_label_cases(ctx, rng, ctx.n(72, 900))
+    yield from route_index_cases(ctx, rng, ctx.n(96, 1200))
+    yield from route_bus_batch_cases(ctx, rng, ctx.n(40, 400))
+
+
 def cases(ctx):
     yield from witness_cases(ctx)
     yield from oracle_cases(ctx)
@@ -1434,6 +1908,7 @@ def cases(ctx):
     yield from layout_cases(ctx)
     yield from long_cases(ctx)
     yield from go_cases(ctx)
+    yield from routes_cases(ctx)
     yield from series_cases(ctx)
     yield from frame_values_cases(ctx)
     yield from frame_index_cases(ctx)
